@@ -34,3 +34,10 @@ add("C19", "model_checking",
     "back by a reader written from the language specification and must denote the original text. Hex/octal formatting is kept symbolic "
     "(division-free encoding), so one run covers all 1.1 M code points and all adjacent pairs.",
     "Readers are the oracle (Python/C++/Java/JS cross-validated against real compilers; C#/Go from the specification text only). Text length bound as in evidence.")
+
+add("C26", "model_checking",
+    "bounded symbolic execution (CrossHair/z3) of linearize_to_subroutines on solver-decoded flows with symbolic condition outcomes vs. two reference interpreters",
+    "The real linearizer runs on every structured flow decodable from a bounded symbolic genome (all node kinds, else absent/empty/present, "
+    "for with/without init); the structured flow and the resulting subroutines (semantics of the emitted C++ switch) are both interpreted under "
+    "a symbolic sequence of condition outcomes; event traces must be equal, labels consecutive, every target defined.",
+    "Flow shapes are a finite family enumerated by the solver (stated honestly); only the outcomes are genuinely symbolic. Bounds in evidence.")
